@@ -33,7 +33,7 @@ RULE = (
 )
 ASSUMPTIONS = ["A5: a class definition that dies inside mashumaro's code generation is counted as backend_unsupported and not judged"]
 NSHARDS = 16
-ATOMS = ["int", "str", "Any", "None", "Lit", "Enum", "NI", "NN", "NL", "N1", "N2", "FR"]
+ATOMS = ["int", "str", "Any", "None", "Lit", "Enum", "NI", "NN", "NL", "N1", "N2", "FR", "NT", "NO"]
 SECOND = ["int", "None", "N2", "FR", "NL"]
 ATOMS_RED = ["int", "None", "N1", "NN", "FR", "NL"]
 SECOND_RED = ["None", "N2", "int"]
@@ -76,6 +76,7 @@ def depth(t):
 
 def value_for(t, g, later):
     """A well-typed value for an accepted child annotation; None for properties (no type check by default)."""
+    t = RT.expand(t)
     if t[0] == "atom":
         return {"N1": g["N1"], "NN": g["N1"], "N2": g["N2"]}.get(t[1], lambda: later())() if t[1] in RT.NODE_ATOMS else None
     if RT.is_union(t):
@@ -179,7 +180,9 @@ def feature(t):
     tags = []
     if "FR" in ats:
         tags.append("fwdref" + ("-nested" if t[0] != "atom" else ""))
-    if ats & {"NN", "NI", "NL"}:
+    if "NO" in ats and t[0] != "atom":
+        tags.append("newtype-of-optional-nested")   # NewType("NO", Optional[N1]) inside another annotation (known finding)
+    elif ats & {"NN", "NI", "NL", "NT", "NO"}:
         tags.append("newtype" + ("-nested" if t[0] != "atom" else ""))
     if t == ("atom", "None"):
         tags.append("none-annotation")
